@@ -832,7 +832,7 @@ class Interp:
             raise Unsupported('constructor of %s with symbolic args' % fv.__name__)
         if fi is not None:
             sym = any(self.has_sym(a) for a in list(args) + list(kwargs.values()))
-            if not sym and fi.key not in self.contracts and fi.key not in self.loops:
+            if not sym and fi.key not in self.contracts and fi.key not in self.loops and self.native_ok(fi, list(args) + list(kwargs.values())):
                 try:
                     return fv(*args, **kwargs)      # closed sub-computation: run natively
                 except Exception as e:               # noqa
@@ -913,13 +913,36 @@ class Interp:
         fi = self.sb.info_of(v) if callable(v) else None
         if fi is not None and hasattr(v, '__self__') and not isinstance(v.__self__, type):
             sym = any(self.has_sym(a) for a in list(args) + list(kwargs.values()))
-            if not sym and fi.key not in self.contracts:
+            if not sym and fi.key not in self.contracts and self.native_ok(fi, [v.__self__] + list(args) + list(kwargs.values())):
                 try:
                     return v(*args, **kwargs)
                 except Exception as e:   # noqa
                     raise Raised(ExcVal(type(e), ()))
             return self.invoke(fi, [v.__self__] + list(args), kwargs, fr, node)
         return self.call_value(v, args, kwargs, fr, node)
+
+    def native_ok(self, fi, values):
+        """a repository function may be run natively (instead of being interpreted) only as a closed computation on plain data:
+        no opaque library object among its arguments and no unavailable third-party module in its module's namespace - otherwise
+        the calls it hands to that library would go unrecorded"""
+        from .sandbox import OpaqueModule
+
+        def plain(x, d=0):
+            if isinstance(x, (Opaque, OpaqueModule, Obj)):
+                return False
+            if isinstance(x, (list, tuple, set, frozenset)) and d < 3:
+                return all(plain(y, d + 1) for y in x)
+            if isinstance(x, dict) and d < 3:
+                return all(plain(y, d + 1) for y in x.values())
+            return True
+        if not all(plain(v) for v in values):
+            return False
+        key = fi.module.name
+        if key not in self._mod_opaque:
+            self._mod_opaque[key] = any(isinstance(v, OpaqueModule) for v in (fi.module.ns or {}).values())
+        return not self._mod_opaque[key]
+
+    _mod_opaque = {}
 
     # ---- invoking an interpreted function: contract or inline
     def invoke(self, fi, args, kwargs, fr, node=None):
